@@ -41,6 +41,13 @@ def scaling_factor(ctx, rule):
         where = f"{f.file}:{st[0].line}"
         ratio = nf.div(val, col("pseudopressure"))
         at = it.single_atom(ratio)
+        scale = nf.ONE
+        if at is None and len(ratio) == 1:
+            # c * interp1d(x, y)(p_i) with a rational constant c: the piecewise-linear interpolant is homogeneous in
+            # its ordinates, this is interp1d(x, c y)(p_i) (the table may be kept in another scaling and the factor undone)
+            ((m_, c_),) = ratio.items()
+            if len(m_) == 1 and m_[0][1] == nf.KONE:
+                at, scale = m_[0][0], nf.const(c_)
         ok = at is not None and at[0] == "fn" and at[1].startswith("call:scipy.interpolate.interp1d") and len(at[2]) >= 3
         if not ok:
             ctx.bad(rule, q + ":m-scaled", where, "m-scaled == pseudopressure * (scaling interpolated at p_i)", signature="m-scaled", ratio=nf.show(ratio, 200))
@@ -54,7 +61,7 @@ def scaling_factor(ctx, rule):
             signature="scaling lookup", x=nf.show(argmap.get("x", {}), 80), query=nf.show(query, 40), options=names,
         )
         want = nf.div(nf.mul(nf.mul(col("compressibility"), col("viscosity")), col("z-factor")), nf.mul(nf.const(2), col("pressure")))
-        ctx.identity(rule, q + ":scaling factor", where, "pseudopressure scaling == compressibility * viscosity * z-factor / (2 * pressure)", argmap.get("y", {}), want)
+        ctx.identity(rule, q + ":scaling factor", where, "pseudopressure scaling == compressibility * viscosity * z-factor / (2 * pressure)", nf.mul(scale, argmap.get("y", {})), want)
     ctx.floor(rule, n, 1, "FlowProperties partitions without alpha")
 
 
